@@ -437,7 +437,7 @@ def check_after(prop, f, m, snap, opinfo, changed_child_ids):
             if removed_glued(m, snap): return f'C06: re-parse differs (removed node was glued to the next token); text={text[:300]!r}'
             return f'C06: re-parse differs from the model; text={text[:300]!r}'
         # (the positional string slots of a transaction are parse slots: writing them directly, instead of through payee / narration, is outside the property's edits)
-        fa, fb = (field_values(f), field_values(g)) if not re.fullmatch(r'(raw_)?string[012]', str(opinfo[1]) if len(opinfo) > 1 else '') else (0, 0)
+        fa, fb = (field_values(f), field_values(g)) if not _SLOT_WRITTEN[0] else (0, 0)
         if fa != fb:
             d_ = next(((x, y) for x, y in zip(fa, fb) if x != y), (fa[-1:], fb[-1:]))
             return f'C06: re-parse has other field values than the model: {d_[0]} vs {d_[1]}; text={text[:200]!r}'
@@ -515,6 +515,9 @@ def views_consistent(m):
     return None
 
 
+_SLOT_WRITTEN = [False]      # this history has written a positional parse slot of a transaction directly (string0/1/2): from then on which FIELD a string sits in is not compared
+
+
 def run_case(prop, docname, ops, lf=None):
     if lf:
         from drivers.common import set_load_factor
@@ -524,7 +527,9 @@ def run_case(prop, docname, ops, lf=None):
     text = _DOCS[docname]
     f = parse(text)
     touch_views(f)
+    _SLOT_WRITTEN[0] = False
     for step, op in enumerate(ops):
+        if re.fullmatch(r'(raw_)?string[012]', str(op[1])): _SLOT_WRITTEN[0] = True
         ms = tree_models(f)
         if op[0] >= len(ms): return None, 'skip'
         m = ms[op[0]]
